@@ -19,6 +19,11 @@
 #include "routes.h"
 #include "ifstate.h"
 #include "failsafe.h"
+/* conntrack_cleanup.h only declares the cleanup-queue value and its map; counters.h / conntrack.h (which
+ * need the real bpf.h) are skipped through their include guards, conntrack_types.h is already in. */
+#define __CALI_COUNTERS_H__
+#define __CALI_CONNTRACK_H__
+#include "conntrack_cleanup.h"
 
 /* force complete layouts of every shared record */
 unsigned long __verif_sizes[] = {
@@ -31,5 +36,5 @@ unsigned long __verif_sizes[] = {
 	sizeof(struct cali_maglev_key),
 	sizeof(struct ip_set_key), sizeof(struct event_header), sizeof(struct fwd),
 	sizeof(struct cali_rt_key), sizeof(struct cali_rt), sizeof(struct ifstate_val),
-	sizeof(struct failsafe_key), sizeof(struct arp_key), sizeof(struct arp_value),
+	sizeof(struct failsafe_key), sizeof(struct arp_key), sizeof(struct arp_value), sizeof(struct cali_ccq_value),
 };
